@@ -357,16 +357,16 @@ Qed.
 (* ------------------------------------------------------------------ *)
 (* toUpperUnderscore: the ORDER of the five regexp replacements and the template each is given, then strings.ToUpper.
    The five ReplaceAllString methods are parameters of the translation; the instances are Model/MsgId.v's matchers
-   (st_re: with the template the source passes).  "${1}_${2}" on the group-less pattern __+ expands to "_"
+   (st_re: with the template the source passes); gotrans orders these parameters by the position of the variables'
+   declarations, not by the order of their use, so swapping two calls changes the body, not the binders.  "${1}_${2}" on the group-less pattern __+ expands to "_"
    (squeeze_us), on the two-group patterns to group 1, '_', group 2 (word_boundary1 / word_boundary2).  The pattern
    texts gotrans reads are those generator 42 compares with what the matchers implement. *)
 Definition st_tmpl12 : bstr := [36; 123; 49; 125; 95; 36; 123; 50; 125].   (* ${1}_${2} *)
 
 Theorem to_upper_underscore_matches_source (ident : bstr) :
   to_upper_underscore ident =
-  src_soymsg_toUpperUnderscore (st_re trim_us []) (st_re squeeze_us st_tmpl12) (st_re word_boundary1 st_tmpl12)
-    (st_re (word_boundary2 c_letter c_digit) st_tmpl12) (st_re (word_boundary2 c_digit c_letter) st_tmpl12)
-    (map ascii_upper) ident.
+  src_soymsg_toUpperUnderscore (map ascii_upper) (st_re trim_us []) (st_re squeeze_us st_tmpl12) (st_re word_boundary1 st_tmpl12)
+    (st_re (word_boundary2 c_letter c_digit) st_tmpl12) (st_re (word_boundary2 c_digit c_letter) st_tmpl12) ident.
 Proof. reflexivity. Qed.
 
 Lemma msg_patterns_match_source :
@@ -378,9 +378,8 @@ Proof. reflexivity. Qed.
 (* genBasePlaceholderNameFromHtml with toUpperUnderscore no longer abstract *)
 Theorem base_from_html_matches_source_closed (text : bstr) :
   match src_soymsg_genBasePlaceholderNameFromHtml (map ascii_lower)
-          (src_soymsg_toUpperUnderscore (st_re trim_us []) (st_re squeeze_us st_tmpl12) (st_re word_boundary1 st_tmpl12)
-             (st_re (word_boundary2 c_letter c_digit) st_tmpl12) (st_re (word_boundary2 c_digit c_letter) st_tmpl12)
-             (map ascii_upper)) text with
+          (src_soymsg_toUpperUnderscore (map ascii_upper) (st_re trim_us []) (st_re squeeze_us st_tmpl12) (st_re word_boundary1 st_tmpl12)
+             (st_re (word_boundary2 c_letter c_digit) st_tmpl12) (st_re (word_boundary2 c_digit c_letter) st_tmpl12)) text with
   | Some r => base_from_html text = Ok r
   | None => base_from_html text = Crash s_no_tag_name
   end.
